@@ -4,6 +4,7 @@ import (
 	"context"
 	"sort"
 	"sync"
+	"verif/sim/kernel"
 
 	"github.com/orda-io/orda/client/pkg/model"
 	"google.golang.org/grpc"
@@ -203,6 +204,19 @@ func wrap[T proto.Message](m T, err error) (proto.Message, error) {
 // sortPacks orders the packs of a push-pull message by key. The client builds them while ranging
 // over a Go map and the server collects the answers as they come; nothing depends on the order
 // except the reproducibility of the simulation.
+// permutePacks: the order the simulator chose for this message (sorted first, then a seeded permutation).
+func permutePacks(m proto.Message, seed uint64) {
+	pp, ok := m.(*model.PushPullMessage)
+	if !ok || len(pp.PushPullPacks) < 2 {
+		return
+	}
+	g := kernel.NewRng(seed)
+	for i := len(pp.PushPullPacks) - 1; i > 0; i-- {
+		j := g.Intn(i + 1)
+		pp.PushPullPacks[i], pp.PushPullPacks[j] = pp.PushPullPacks[j], pp.PushPullPacks[i]
+	}
+}
+
 func sortPacks(m proto.Message) {
 	if pp, ok := m.(*model.PushPullMessage); ok {
 		sort.SliceStable(pp.PushPullPacks, func(i, j int) bool { return pp.PushPullPacks[i].Key < pp.PushPullPacks[j].Key })
